@@ -227,7 +227,9 @@ def run_complete_job(job, build):
 
 def run_kernel_job(job, build):
     prog = tok.load_program(build, "none")
-    ex = tok.new_exec(prog, step_budget=300000)
+    models = dict(tok.TOK_MODELS)
+    lemmas.install_nondet(models, ["Missing"])
+    ex = tok.new_exec(prog, models=models, step_budget=600000)
     shape = tuple(job["shape"])
     which = job["which"]
     out = {"stats": None, "cex": [], "inconclusive": [], "samples": [], "nontrivial": 0, "obligations": 0}
@@ -251,6 +253,13 @@ def run_kernel_job(job, build):
             st2 = Adt("State", 0, tuple(f2[k] for k in order))
             r = ex.call(parse_callee("State::adjacent_scope"), [ref, Ref(Cell(st2, "orig"), ())])
             return ("optrange", r, None, pres)
+        if which == "adjacent_eval":
+            # ParseAdjacent::eval itself, inner parser nondeterministic, scope arbitrary (as inside an
+            # adjacent command or another adjacent group)
+            w = Adt("ParseAdjacent", 0, (lemmas.NONDET,))
+            r = ex.call(parse_callee("<P as Parser<T>>::eval"), [Ref(Cell(w, "adj"), ()), ref])
+            post = rd(ref)
+            return ("adj", (r, post), None, pres)
         if which == "ranges_next":
             L = ex.prog.layout
             it = Adt("ArgRangesIter", 0, tuple({"args": ref, "width": 1 + tok.choose_free(ex, 2, "width"), "cur": 0}[f] for f in L.adts["ArgRangesIter"]["fields"]))
@@ -279,6 +288,11 @@ def run_kernel_job(job, build):
             okb = ex.binop("Le", b, n, "usize")
             if (okb is False) or (okb is not True and ex.prove(okb) is not None):
                 out["cex"].append({"kind": "kernel-range-out-of-bounds:" + which, "shape": list(shape), "info": repr(val)})
+        elif kind == "adj":
+            res, post = val
+            inv = lemmas.invariant(ex, post)
+            if inv is False or (inv is not True and ex.prove(inv) is not None):
+                out["cex"].append({"kind": "kernel-invariant-broken:" + which, "shape": list(shape), "info": "representation invariant does not hold after ParseAdjacent::eval"})
         elif kind == "iter" and val > n + 2:
             out["cex"].append({"kind": "kernel-nontermination:" + which, "shape": list(shape), "info": "ArgRangesIter yields more than len+2 times"})
     try:
@@ -302,7 +316,7 @@ def make_jobs(tier, seed, build):
     nw = 2 if tier == "quick" else 3
     for gname in GRAMMARS:
         g = CORPUS[gname]
-        for shape in tok.all_shapes_by_words(nw, g.decl):
+        for shape in tok.all_shapes_by_words(nw if gname != "e1" else nw - 1, g.decl):
             jobs.append({"id": "render:%s:%s" % (gname, ",".join(shape)), "kind": "render", "grammar": gname, "shape": shape, "fs": "none"})
     for gname in ("g1", "c1", "a3", "k1"):
         g = CORPUS[gname]
@@ -320,12 +334,15 @@ def make_jobs(tier, seed, build):
             j["kind"] = "loop"
             jobs.append(j)
     d = tok.Decl("a", "b")
-    for which in ("adjacently_available_from", "adjacent_scope", "ranges_next"):
+    for which in ("adjacently_available_from", "adjacent_scope", "ranges_next", "adjacent_eval"):
         for n in range(0, (2 if tier == "quick" else 3) + 1):
             for sh in tok.all_shapes(n, d):
                 if any(f in ("short=", "shortv", "long=") for f in sh):
                     continue
-                jobs.append({"id": "kernel:%s:%s" % (which, ",".join(sh)), "kind": "kernel", "which": which, "shape": sh})
+                if which == "adjacent_eval" and (any(f != "word" for f in sh) or n > 2):
+                    continue  # the inner parser is nondeterministic: item kinds are irrelevant; 2 items max
+                jobs.append({"id": "kernel:%s:%s" % (which, ",".join(sh)), "kind": "kernel", "which": which, "shape": sh,
+                             "weight": 100 if (which == "adjacent_eval" and n == 2) else 0})
     return jobs
 
 
